@@ -15,7 +15,7 @@ CHECKS: dict[str, dict[str, str]] = {
                   'the authenticator, asyncio Lock / Condition as they behave) model-checked with TLC over all interleavings incl. termination under fairness, and '
                   'bound to the code by trace validation of the real machinery observed from outside (Trace_Vault); TLA+ reference of the API retry loop and of '
                   'throttling (Infra.tla) with laws checked by TLC over all fault words; the real api.request / throttled processing run in virtual time, records judged by TLC',
-        text='[+ Kits.tla: the error pause is aiotime.sleep] [+ expiration of credentials in Vault.tla: F37 found by TLC (NoCrash / NoLeak), replayed on the real code, repaired; the old code is the witness variant f37] [+ Vault.tla / MC_Vault: NoReuse, SingleReauth, ReauthOnlyOnRevocation, NoCrash, NoLeak, LockDiscipline for 2-3 requesters x 1-2 keys x revocations x faults x login outcomes (fresh / same / none) x both kinds of credentials, negative variant `bykey`; Trace_Vault: 400 (quick) / 6000 (thorough) seeded schedules of the real Vault / authenticated / api.request / authenticator, every lock acquisition, wait, notification, selection, flush, request and answer mapped to one action of the model, the vault compared after every event] [+ a session whose close() takes time while another request retries from its backoff; reuse of invalidated credentials judged at the instant a request leaves the client] [+ timers whose own PATCH exhausts the retries: known finding F17] RetryPlan gives the exact instants of all attempts for a fault word (connection errors, timeouts, 5xx, 403, 429 with Retry-After, '
+        text='[+ in a third of the throttle scenarios the bystander is the failing object\'s namesake of another kind] [+ Kits.tla: the error pause is aiotime.sleep] [+ expiration of credentials in Vault.tla: F37 found by TLC (NoCrash / NoLeak), replayed on the real code, repaired; the old code is the witness variant f37] [+ Vault.tla / MC_Vault: NoReuse, SingleReauth, ReauthOnlyOnRevocation, NoCrash, NoLeak, LockDiscipline for 2-3 requesters x 1-2 keys x revocations x faults x login outcomes (fresh / same / none) x both kinds of credentials, negative variant `bykey`; Trace_Vault: 400 (quick) / 6000 (thorough) seeded schedules of the real Vault / authenticated / api.request / authenticator, every lock acquisition, wait, notification, selection, flush, request and answer mapped to one action of the model, the vault compared after every event] [+ a session whose close() takes time while another request retries from its backoff; reuse of invalidated credentials judged at the instant a request leaves the client] [+ timers whose own PATCH exhausts the retries: known finding F17] RetryPlan gives the exact instants of all attempts for a fault word (connection errors, timeouts, 5xx, 403, 429 with Retry-After, '
              'other 4xx) under a backoff list and enforce_retry_after; TLC checks its laws for 37 448 cases and then judges the real '
              'api.request on ~900 (quick) / all (thorough) words: attempt instants must be equal. Throttling: per-object delays grow per '
              'consecutive error, reset by success, other objects are processed at their arrival instants, the operator stays alive and '
@@ -41,7 +41,7 @@ CHECKS: dict[str, dict[str, str]] = {
         technique='explicit TLA+ model of peering (Peering.tla: keep-alive, evaluation of queued snapshots, clean, deadline sleep, graceful '
                   'exit, kill, foreign writes) checked exhaustively with TLC incl. liveness; executions of 1-3 real operators sharing a peering '
                   'object in virtual time validated by TLC against the specification (Trace_Peering.tla, with time urgency)',
-        text='[+ the streams of the peering object are cut after the version has grown by a digit; the peering watcher tasks through Trace_Streaming] [+ the watcher tasks of the handled kind in all runs validated step by step against Streaming.tla: closed in the instant the pause reaches the task, nothing requested while paused, back-off and a fresh listing afterwards] [+ schedules drawn by TLC (-simulate on Sim_Peering) replayed into the real operators] TLC: RenewsInTime and WithdrawsOnExit in every state, ExactlyTop / EventuallyStable and CleansDead under fairness, for every '
+        text='[+ PauseSet runs with a second served kind whose CRD comes and goes while a peering holds the operator paused] [+ the streams of the peering object are cut after the version has grown by a digit; the peering watcher tasks through Trace_Streaming] [+ the watcher tasks of the handled kind in all runs validated step by step against Streaming.tla: closed in the instant the pause reaches the task, nothing requested while paused, back-off and a fresh listing afterwards] [+ schedules drawn by TLC (-simulate on Sim_Peering) replayed into the real operators] TLC: RenewsInTime and WithdrawsOnExit in every state, ExactlyTop / EventuallyStable and CleansDead under fairness, for every '
              'order of starts, exits, kills and foreign writes of 2-3 operators with stale snapshots queued; negative and witness '
              'configurations (period = lifetime; families F26, F27). Real operators: every PATCH of the peering object must be the write '
              'the specification predicts at that instant (content and time), every evaluation must split the peers into dead / higher / '
@@ -111,7 +111,7 @@ CHECKS: dict[str, dict[str, str]] = {
     'C10': dict(
         technique='explicit TLA+ transcription of the timer loop (Timers.tla) checked exhaustively with TLC; start/end instants of the real '
                   'timer function in virtual time validated by TLC against the specification (Trace_Timers.tla)',
-        text='[+ the object leaves and re-enters the timer filters: Unmatch / Rematch / Respawn in Timers.tla (a new instance only once the old one has fully ended, never after an own exit), model-checked with two toggles and bound by label toggles in the scenarios] [+ zero delays and zero backoffs: the retry starts at once; AfterTemp states the exact instant] [+ no change-detecting handler at all: family F6 as a named deviation of the trace specification] FirstRun, NoOverlap, IdleLaw, AfterOk, AfterOkSharp, AfterTemp, AfterExc and PermanentEndsIt hold in every state of the model '
+        text='[+ a sibling timer of the same object, spawned together, stopped by its own filter: the timer under test stays on its schedule] [+ the object leaves and re-enters the timer filters: Unmatch / Rematch / Respawn in Timers.tla (a new instance only once the old one has fully ended, never after an own exit), model-checked with two toggles and bound by label toggles in the scenarios] [+ zero delays and zero backoffs: the retry starts at once; AfterTemp states the exact instant] [+ no change-detecting handler at all: family F6 as a named deviation of the trace specification] FirstRun, NoOverlap, IdleLaw, AfterOk, AfterOkSharp, AfterTemp, AfterExc and PermanentEndsIt hold in every state of the model '
              '(7 configurations x durations x outcome scripts x change instants, ~3 million states). The real operator runs one timer per '
              'scenario under a virtual clock; since the specification is deterministic given the environment\'s choices, a trace is accepted '
              'only if every start instant is exactly the one the laws give. The check showed F2 (fixed: 9a87981) and F1 (fixed: b6c0de9).',
@@ -121,7 +121,7 @@ CHECKS: dict[str, dict[str, str]] = {
     'C15': dict(
         technique='TLA+ reference of handler selection (Filters.tla, an executable reading of docs/filters.rst) checked by TLC over the '
                   'declaration x state space; real decorators/registries run on the same space, records judged by TLC; closed-loop stealth traces',
-        text='[+ the resource selector: Filters!SelMatches (group, version vs preferred, kind/plural/singular/shortcut/category/any-name/EVERYTHING/callable, Kubernetes events excluded) vs the real Selector.check and the registry] Every declaration of the criteria alphabet (9 handler kinds x label criteria incl. two keys x field/value criteria x old/new x '
+        text='[+ crowd runs: a sixth of the scenarios again with a namesake kind (same plural, another group), a namesake object and a second object of the main kind on a schedule of their own; the log is reduced to the main object and validated by the unchanged single-object specifications: every object behaves as if it were alone] [+ the resource-selector criterion also on kinds re-described at runtime (same group/version/plural, other categories / shortcuts / preferred version)] [+ the resource selector: Filters!SelMatches (group, version vs preferred, kind/plural/singular/shortcut/category/any-name/EVERYTHING/callable, Kubernetes events excluded) vs the real Selector.check and the registry] Every declaration of the criteria alphabet (9 handler kinds x label criteria incl. two keys x field/value criteria x old/new x '
              'when) is registered through the real kopf.on.* decorators; every object/old/new state becomes a real cause; the real registry\'s '
              'selection is compared with Filters!Matches for each pair by TLC (bounded-exhaustive, 50-200k pairs). De-duplication by (fn, id) '
              'and the stealth guarantee (closed loop, Trace_Handling: Stealth) are part of the check. Families F10, F11 are TLA+ predicates.',
@@ -140,7 +140,7 @@ CHECKS: dict[str, dict[str, str]] = {
     'C18': dict(
         technique='TLA+ reference of the admission response (Admission.tla over JV.tla: RFC 7386 merge, RFC 6902 application incl. move/copy); '
                   'the real serve_admission_request run on systematic combinations, records judged by TLC',
-        text='[+ the filters of the handlers (labels, field/value, when) in the selection, judged on the reviewed object with a differing other object] allowed iff no selected handler raised; message/code from the most specific error; warnings in order; exactly the selected '
+        text='[+ a kind served in two versions, handlers that name a version or none: Admission!SelectedH has the version clause] [+ the filters of the handlers (labels, field/value, when) in the selection, judged on the reviewed object with a differing other object] allowed iff no selected handler raised; message/code from the most specific error; warnings in order; exactly the selected '
              'handlers ran (webhook id, operation, subresource, mutating-on-DELETE opt-in); the returned JSON patch applied to the reviewed '
              'object equals the transformations applied to the RFC 7386 merge of the instructions, up to empty mappings - decided by TLC for '
              'every record of the real code. Families F12, F13, F24 are TLA+ predicates.',
@@ -149,7 +149,7 @@ CHECKS: dict[str, dict[str, str]] = {
     'C04': dict(
         technique='TLA+ reference semantics of essence and diff (Essence.tla over JV.tla); TLC checks the diff laws on the reference for all '
                   'pairs of small bodies; records of the real essence/diff functions are judged by TLC (ClassifyC04)',
-        text='[+ echo records: the last-handled state fetched back after the framework\'s own write equals the essence of the object, empty essences included] [+ ordinary annotations of look-alike domains (keys that merely begin with a managed prefix)] DiffSound / DiffComplete / ReduceExact hold on the reference for 810 900 (quick) or 9.8 million (thorough) pairs of bodies. '
+        text='[+ crowd runs: a sixth of the scenarios again with a namesake kind (same plural, another group), a namesake object and a second object of the main kind on a schedule of their own; the log is reduced to the main object and validated by the unchanged single-object specifications: every object behaves as if it were alone] [+ ReplicaSet-owned-by-Deployment bodies in the echo runs; an echo after a restart with a fresh storage object] [+ echo records: the last-handled state fetched back after the framework\'s own write equals the essence of the object, empty essences included] [+ ordinary annotations of look-alike domains (keys that merely begin with a managed prefix)] DiffSound / DiffComplete / ReduceExact hold on the reference for 810 900 (quick) or 9.8 million (thorough) pairs of bodies. '
              'The real diffbase.build + progress.clear, storages\' store/purge/touch, finalizer edits, diffs.diff and diffs.reduce are run on '
              'bounded-exhaustive bodies x 4 storage configurations (x extra fields) and on hypothesis-generated documents; TLC decides for '
              'every record: own / foreign-Kopf writes invisible, other edits visible, essence equal to the reference Essence, diffs equal to '
@@ -160,7 +160,7 @@ CHECKS: dict[str, dict[str, str]] = {
     'C02': dict(
         technique='explicit TLA+ model of the closed loop of one object (Handling.tla) checked exhaustively with TLC; traces of the real '
                   'kopf.operator() in the world simulator validated by TLC against the specification (Trace_Handling.tla)',
-        text='[+ histories and handler outcomes drawn by TLC (-simulate on Sim_Handling) replayed into the real operator] [+ OnceMonitor.tla: the statement as a property automaton over runs with a parent handler, two scripted sub-handlers, a sibling, mid-cycle edits (resume superseded by update) and graceful restarts] recorded progress governs invocation: InvokeGoverned (record in the processed view: not finished, retry = recorded attempts, delay elapsed), CloseExactlyWhenDone, AtMostOnce with all doors closed; the negative configuration shows a kill re-opens the door' ' -- checked by TLC on Handling.tla for every interleaving of the bounded configurations, and on every state of '
+        text='[+ crowd runs: a sixth of the scenarios again with a namesake kind (same plural, another group), a namesake object and a second object of the main kind on a schedule of their own; the log is reduced to the main object and validated by the unchanged single-object specifications: every object behaves as if it were alone] [+ histories and handler outcomes drawn by TLC (-simulate on Sim_Handling) replayed into the real operator] [+ OnceMonitor.tla: the statement as a property automaton over runs with a parent handler, two scripted sub-handlers, a sibling, mid-cycle edits (resume superseded by update) and graceful restarts] recorded progress governs invocation: InvokeGoverned (record in the processed view: not finished, retry = recorded attempts, delay elapsed), CloseExactlyWhenDone, AtMostOnce with all doors closed; the negative configuration shows a kill re-opens the door' ' -- checked by TLC on Handling.tla for every interleaving of the bounded configurations, and on every state of '
              'the behaviour that explains each recorded trace of the real operator (seeded random scenarios of profile progress + errors; every '
              'PATCH is compared with the specification\'s server object field by field, virtual time is bound by urgency). Daemons and timers '
              'hold the finalizer too: the daemon executions of C09 are validated against Spawning.tla (Trace_Spawning: every finalizer write must '
@@ -172,7 +172,7 @@ CHECKS: dict[str, dict[str, str]] = {
     'C03': dict(
         technique='explicit TLA+ model of the closed loop of one object (Handling.tla) checked exhaustively with TLC; traces of the real '
                   'kopf.operator() in the world simulator validated by TLC against the specification (Trace_Handling.tla)',
-        text='[+ histories with sub-handlers run to quiescence] [+ multi-step deletions and retries at once in the histories] [+ TLC-drawn histories (Sim_Handling); histories of the consistency and finalizer profiles; user transformations carried forward] TerminalConverged on configurations without doors / with kills, stops, restarts, re-listings; Termination under weak fairness; witness configurations for the known families F8, F20, F21, F22; histories run to quiescence: final state Converged (or excused by a known family) and no PATCH in the tail window' ' -- checked by TLC on Handling.tla for every interleaving of the bounded configurations, and on every state of '
+        text='[+ crowd runs: a sixth of the scenarios again with a namesake kind (same plural, another group), a namesake object and a second object of the main kind on a schedule of their own; the log is reduced to the main object and validated by the unchanged single-object specifications: every object behaves as if it were alone] [+ histories with sub-handlers run to quiescence] [+ multi-step deletions and retries at once in the histories] [+ TLC-drawn histories (Sim_Handling); histories of the consistency and finalizer profiles; user transformations carried forward] TerminalConverged on configurations without doors / with kills, stops, restarts, re-listings; Termination under weak fairness; witness configurations for the known families F8, F20, F21, F22; histories run to quiescence: final state Converged (or excused by a known family) and no PATCH in the tail window' ' -- checked by TLC on Handling.tla for every interleaving of the bounded configurations, and on every state of '
              'the behaviour that explains each recorded trace of the real operator (seeded random scenarios of profile converge; every '
              'PATCH is compared with the specification\'s server object field by field, virtual time is bound by urgency). Daemons and timers '
              'hold the finalizer too: the daemon executions of C09 are validated against Spawning.tla (Trace_Spawning: every finalizer write must '
@@ -184,7 +184,7 @@ CHECKS: dict[str, dict[str, str]] = {
     'C06': dict(
         technique='explicit TLA+ model of the closed loop of one object (Handling.tla) checked exhaustively with TLC; traces of the real '
                   'kopf.operator() in the world simulator validated by TLC against the specification (Trace_Handling.tla)',
-        text='[+ multi-step deletions (a second deletion handler, retries at once); the known family F9 (deletion handlers started anew while the object is held for a stopping daemon) named by Handling!Family_F9 on the validated prefix of a livelocked run] NeverEarly (the finalizer is withdrawn from a deleting object only after every mandatory matching deletion handler has finished), ForeignUntouched, FollowsMatching, with foreign finalizer edits, toggles, deletions and 422 conflicts' ' -- checked by TLC on Handling.tla for every interleaving of the bounded configurations, and on every state of '
+        text='[+ crowd runs: a sixth of the scenarios again with a namesake kind (same plural, another group), a namesake object and a second object of the main kind on a schedule of their own; the log is reduced to the main object and validated by the unchanged single-object specifications: every object behaves as if it were alone] [+ multi-step deletions (a second deletion handler, retries at once); the known family F9 (deletion handlers started anew while the object is held for a stopping daemon) named by Handling!Family_F9 on the validated prefix of a livelocked run] NeverEarly (the finalizer is withdrawn from a deleting object only after every mandatory matching deletion handler has finished), ForeignUntouched, FollowsMatching, with foreign finalizer edits, toggles, deletions and 422 conflicts' ' -- checked by TLC on Handling.tla for every interleaving of the bounded configurations, and on every state of '
              'the behaviour that explains each recorded trace of the real operator (seeded random scenarios of profile finalizer; every '
              'PATCH is compared with the specification\'s server object field by field, virtual time is bound by urgency). Daemons and timers '
              'hold the finalizer too: the daemon executions of C09 are validated against Spawning.tla (Trace_Spawning: every finalizer write must '
@@ -208,7 +208,7 @@ CHECKS: dict[str, dict[str, str]] = {
     'C11': dict(
         technique='explicit TLA+ model of the closed loop of one object (Handling.tla) checked exhaustively with TLC; traces of the real '
                   'kopf.operator() in the world simulator validated by TLC against the specification (Trace_Handling.tla)',
-        text='[+ Kits.tla: what aiotime.sleep returns, 1040 records of the real coroutine incl. instants and delays that are no round numbers] [+ Activities.tla: whole activities (the reference of one invocation iterated over the rounds) vs the real run_activity with scripted handlers that end in different rounds: attempt instants, per-handler verdicts, the verdict of the activity] [+ re-listings whose snapshot predates the own patch and is delivered after it (patch latency, list answer latency, compaction)] [+ Execution.tla: reference of one invocation - timeout / retries before the attempt, look-ahead for temporary and arbitrary errors, error modes, backoff - laws checked by TLC over 143 360 input combinations; the real execute_handler_once on configurations x states (incl. runtimes beyond 24 h) x behaviours for an activity and a change handler judged by TLC] retry numbering, delays (a handler is never invoked before its recorded delay), permanence, ignored mode and the retries limit for change handlers incl. across kills/restarts (RetriesBounded, InvokeGoverned); records after every PATCH are compared field by field' ' -- checked by TLC on Handling.tla for every interleaving of the bounded configurations, and on every state of '
+        text='[+ crowd runs: a sixth of the scenarios again with a namesake kind (same plural, another group), a namesake object and a second object of the main kind on a schedule of their own; the log is reduced to the main object and validated by the unchanged single-object specifications: every object behaves as if it were alone] [+ crowd runs: a sixth of the scenarios again with a namesake kind (same plural, another group), a namesake object and a second object of the main kind on a schedule of their own; the log is reduced to the main object and validated by the unchanged single-object specifications: every object behaves as if it were alone] [+ Kits.tla: what aiotime.sleep returns, 1040 records of the real coroutine incl. instants and delays that are no round numbers] [+ Activities.tla: whole activities (the reference of one invocation iterated over the rounds) vs the real run_activity with scripted handlers that end in different rounds: attempt instants, per-handler verdicts, the verdict of the activity] [+ re-listings whose snapshot predates the own patch and is delivered after it (patch latency, list answer latency, compaction)] [+ Execution.tla: reference of one invocation - timeout / retries before the attempt, look-ahead for temporary and arbitrary errors, error modes, backoff - laws checked by TLC over 143 360 input combinations; the real execute_handler_once on configurations x states (incl. runtimes beyond 24 h) x behaviours for an activity and a change handler judged by TLC] retry numbering, delays (a handler is never invoked before its recorded delay), permanence, ignored mode and the retries limit for change handlers incl. across kills/restarts (RetriesBounded, InvokeGoverned); records after every PATCH are compared field by field' ' -- checked by TLC on Handling.tla for every interleaving of the bounded configurations, and on every state of '
              'the behaviour that explains each recorded trace of the real operator (seeded random scenarios of profile errors; every '
              'PATCH is compared with the specification\'s server object field by field, virtual time is bound by urgency). Daemons and timers '
              'hold the finalizer too: the daemon executions of C09 are validated against Spawning.tla (Trace_Spawning: every finalizer write must '
@@ -220,7 +220,7 @@ CHECKS: dict[str, dict[str, str]] = {
     'C14': dict(
         technique='explicit TLA+ model of the closed loop of one object (Handling.tla) checked exhaustively with TLC; traces of the real '
                   'kopf.operator() in the world simulator validated by TLC against the specification (Trace_Handling.tla)',
-        text='[+ restarts over an object that is being deleted, with and without deleted=True] ResumeOnce per process (modulo the stale-view door), resume handlers mixed into update/delete causes, re-listings (410) and restarts' ' -- checked by TLC on Handling.tla for every interleaving of the bounded configurations, and on every state of '
+        text='[+ crowd runs: a sixth of the scenarios again with a namesake kind (same plural, another group), a namesake object and a second object of the main kind on a schedule of their own; the log is reduced to the main object and validated by the unchanged single-object specifications: every object behaves as if it were alone] [+ restarts over an object that is being deleted, with and without deleted=True] ResumeOnce per process (modulo the stale-view door), resume handlers mixed into update/delete causes, re-listings (410) and restarts' ' -- checked by TLC on Handling.tla for every interleaving of the bounded configurations, and on every state of '
              'the behaviour that explains each recorded trace of the real operator (seeded random scenarios of profile resume; every '
              'PATCH is compared with the specification\'s server object field by field, virtual time is bound by urgency). Daemons and timers '
              'hold the finalizer too: the daemon executions of C09 are validated against Spawning.tla (Trace_Spawning: every finalizer write must '
@@ -245,7 +245,7 @@ CHECKS: dict[str, dict[str, str]] = {
     'C05': dict(
         technique='TLA+ reference classifier (Causes.tla) model-checked exhaustively with TLC; every input combination '
                   'materialised as a real body and run through the real _detect_causes/process_changing_cause, records judged by TLC',
-        text='TLC checks the precedence and exclusivity laws on the reference classifier for all 128 input combinations; the same '
+        text='[+ crowd runs: a sixth of the scenarios again with a namesake kind (same plural, another group), a namesake object and a second object of the main kind on a schedule of their own; the log is reduced to the main object and validated by the unchanged single-object specifications: every object behaves as if it were alone] [+ a namesake kind with a field handler is seen first: extra fields are per kind] TLC checks the precedence and exclusivity laws on the reference classifier for all 128 input combinations; the same '
              'operator judges 1152 records produced by the real code (all combinations x 3 storage configurations x foreign '
              'finalizers) and, at system level, every handler invocation of the closed-loop Handling traces. Exhaustive over the '
              'classifier inputs, which is the right level for a finite decision list.',
